@@ -53,7 +53,7 @@ RULE = ('sequences of 1-9 blocks of compatible raster-aligned events (block/sinc
         'pp.calc_duration(*events) == pp.calc_duration(get_block); duration() total and count; every ADC sample time, RF '
         'centre time and gradient corner time of waveforms_and_times / rf_times / adc_times (also with time_range windows that start in the first block, at 0 and at random, incl. waveforms(time_range)) and '
         'the t_* outputs of calculate_kspace == prefix sum of the durations + the in-block time; TotalDuration and the '
-        '[BLOCKS] column of the written file; durations after re-reading, also into an object created for another block raster (x2, /2, x1.5, x4) and written again: the new file\'s [BLOCKS] integers x its BlockDurationRaster and TotalDuration must still be the stored durations; a USED object (other / more blocks, gapped numbers, decoded once) reads the file and must then be indistinguishable from a fresh object that read it (block tables, duration(), sum(block_durations), time axes, time_range windows, calculate_kspace, rewritten file text); block_events / block_durations of every object must carry the same keys in the same order with duration() == sum(block_durations). Correspondence: the block-table model over the same history,  set_block_duration, calc_duration, '
+        '[BLOCKS] column of the written file; durations after re-reading, also into an object created for another block raster (x2, /2, x1.5, x4) and written again: the new file\'s [BLOCKS] integers x its BlockDurationRaster and TotalDuration must still be the stored durations; a USED object (other / more blocks, gapped numbers, decoded once) reads the file and must then be indistinguishable from a fresh object that read it (block tables, duration(), sum(block_durations), time axes, time_range windows, calculate_kspace, rewritten file text); block_events / block_durations of every object must carry the same keys in the same order with duration() == sum(block_durations). One case in nine is a file of the older format revision 1.3.1 / 1.3.2 written by the harness (blocks reference [DELAYS] entries shorter or longer than the events; trapezoids, ADCs, block pulses): stored duration must be the latest of the delay entry and every event end computed from the numbers in the file, and all the other checks apply to the loaded object. Correspondence: the block-table model over the same history,  set_block_duration, calc_duration, '
         'starts, adc/rf times, gradient piece ends and the [BLOCKS] integers of the extracted Coq model. '
         'non-trivial = at least 2 blocks with >= 2 timed events each or an overwritten block')
 TRUSTED = ['calc_rf_center and the in-event time vectors (rf.t, grad.tt) are taken from the implementation',
